@@ -111,6 +111,35 @@ fn f14() -> bool {
     matches!(r, Ok(o) if o.unsatisfied().is_empty() && o.final_values()[6] == -1.0)
 }
 
+/// F15: an under-determined planted system lands farther from the guess than 1.5 x the distance
+/// from the guess to the planted solution (here 2.4 x).
+fn f15() -> bool {
+    use ezpz_verif_harness::codec::dec_constraint;
+    let reqs: Vec<ConstraintRequest> = [
+        "Fixed 4 13849210317387347082",
+        "Fixed 2 13857077051297942531",
+        "Fixed 0 4627419486248578802",
+        "Fixed 2 13857077051297942531",
+        "PointLineDistance 0 1 4 5 2 3 4394577420534801298",
+        "Midpoint 0 1 2 3 4 5",
+    ]
+    .iter()
+    .map(|s| hp(dec_constraint(s).unwrap()))
+    .collect();
+    let g: Vec<f64> = [4627626384844681234u64, 4625777024798074250, 13856955095764575906, 13859887328329715780, 13849474766912888617, 13854144296573934991]
+        .iter()
+        .map(|b| f64::from_bits(*b))
+        .collect();
+    let r = solve(&reqs, guesses(&g), Config::default());
+    match r {
+        Ok(o) => {
+            let d: f64 = o.final_values().iter().zip(&g).map(|(a, b)| (a - b) * (a - b)).sum::<f64>().sqrt();
+            o.is_satisfied() && d > 3.0
+        }
+        Err(_) => false,
+    }
+}
+
 fn main() {
     let args: Vec<String> = std::env::args().collect();
     std::panic::set_hook(Box::new(|_| {}));
@@ -121,6 +150,7 @@ fn main() {
             "F11-cap-not-monotone-across-levels" => f11(),
             "F12-no-lint-outside-returned-subset" => f12(),
             "F14-point-on-arc-outside-sweep" => f14(),
+            "F15-underdetermined-lands-farther-than-1.5x" => f15(),
             other => {
                 println!("UNKNOWN-FINDING {other}");
                 std::process::exit(2);
@@ -194,4 +224,5 @@ fn main() {
     println!("F11 reproduced={}", f11());
     println!("F12 reproduced={}", f12());
     println!("F14 reproduced={}", f14());
+    println!("F15 reproduced={}", f15());
 }
